@@ -17,7 +17,9 @@ fn effective_skip(d: &Doc, t: &T) -> i32 { t.inline_skip.or(d.docskip).unwrap_or
 pub const SLOW_T: f64 = 1.6;
 pub const SLOW_G: f64 = 2.2;
 fn slow_cmd(kind: char, id: &str, marks: &Path) -> String {
-    format!("sleep {}; echo {} >> {}", if kind == 'T' { SLOW_T } else { SLOW_G }, id, marks.with_file_name("late").display())
+    // every other slow command ignores SIGTERM: being aborted must not depend on the cooperation of the shell
+    let stubborn = id.bytes().last().map_or(false, |b| b % 2 == 1);
+    format!("{}sleep {}; echo {} >> {}", if stubborn { "trap '' TERM; " } else { "" }, if kind == 'T' { SLOW_T } else { SLOW_G }, id, marks.with_file_name("late").display())
 }
 
 fn render_md(d: &Doc, di: usize, marks: &Path) -> String {
